@@ -1,23 +1,21 @@
-(* Model of DictAdapter.assign (src/inline_snapshot/_adapter/dict_adapter.py:55-150) on flat dict displays with integer keys
-   and integer leaves (ValueAdapter.assign for the values, as in Model/SeqAssign.v), together with the order in which
-   _change.apply_all / generic_sequence_update place the inserted entries:
+(* Model of DictAdapter.assign (src/inline_snapshot/_adapter/dict_adapter.py:55-150) on dict displays with integer keys whose
+   values are nested lists / tuples (Model/TreeAssign.v: hand-written leaves, user-controlled parts), together with the order in
+   which _change.apply_all / generic_sequence_update place the inserted entries:
      - an old entry whose key the new value lacks is deleted (category fix);
      - the new value is walked in ITS order: entries with new keys are collected and inserted (category fix) in front of the
        next matched key, at the position `insert_pos` = number of keys matched so far (an index into the OLD display);
        what is still pending at the end is inserted behind the last old entry;
-     - matched keys: the value is assigned in place (fix when it differs, update when only its text differs).
+     - matched keys: the value is assigned in place by the adapter of the value (assign_tree).
    The result is the list of entries in text order.  Executable definitions only. *)
 From Coq Require Import List ZArith Bool Arith.
 Import ListNotations.
-From V Require Import Model.SnapOps Model.SeqAssign.
+From V Require Import Model.SnapOps Model.TreeAssign.
 Open Scope Z_scope.
 
-Record entry := { e_key : Z; e_leaf : leaf }.
-Inductive ditem := DKeep (k : Z) (l : leaf) | DGen (k : Z) (v : Z).     (* key: value-text kept / value generated *)
-Definition ditem_key (i : ditem) : Z := match i with DKeep k _ | DGen k _ => k end.
-Definition ditem_val (i : ditem) : Z := match i with DKeep _ l => l_val l | DGen _ v => v end.
+Record entry := { e_key : Z; e_val : tree }.
+Definition ditem := (Z * rtree)%type.          (* key: what becomes of the value *)
 
-Fixpoint lookup_new (k : Z) (news : list (Z * Z)) : option Z :=
+Fixpoint lookup_new (k : Z) (news : list (Z * val)) : option val :=
   match news with
   | [] => None
   | (k', v) :: r => if k =? k' then Some v else lookup_new k r
@@ -29,7 +27,7 @@ Fixpoint has_old (k : Z) (olds : list entry) : bool :=
   end.
 
 (* walking the new value: the groups of inserted entries with their positions; `pending` in reverse *)
-Fixpoint inserts (olds : list entry) (news : list (Z * Z)) (pending : list (Z * Z)) (pos : nat) : list (nat * list (Z * Z)) :=
+Fixpoint inserts (olds : list entry) (news : list (Z * val)) (pending : list (Z * val)) (pos : nat) : list (nat * list (Z * val)) :=
   match news with
   | [] => match pending with [] => [] | _ => [(length olds, rev pending)] end
   | (k, v) :: r =>
@@ -38,26 +36,22 @@ Fixpoint inserts (olds : list entry) (news : list (Z * Z)) (pending : list (Z * 
       else inserts olds r ((k, v) :: pending) pos
   end.
 
-Definition gens (l : list (Z * Z)) : list ditem := map (fun kv => DGen (fst kv) (snd kv)) l.
+Definition gens (l : list (Z * val)) : list ditem := map (fun kv => (fst kv, RGen (snd kv))) l.
 (* everything that is inserted in front of old index i, in emission order *)
-Definition inserted_at (ins : list (nat * list (Z * Z))) (i : nat) : list ditem :=
+Definition inserted_at (ins : list (nat * list (Z * val))) (i : nat) : list ditem :=
   flat_map (fun g => if Nat.eqb (fst g) i then gens (snd g) else []) ins.
 
-Definition assign_entry (F : flags) (e : entry) (news : list (Z * Z)) : list ditem :=
+Definition assign_entry (F : flags) (e : entry) (news : list (Z * val)) : list ditem :=
   match lookup_new (e_key e) news with
-  | None => if f_fix F then [] else [DKeep (e_key e) (e_leaf e)]            (* Delete, category fix *)
-  | Some v =>
-      match assign_leaf F (e_leaf e) v with
-      | Keep l => [DKeep (e_key e) l]
-      | Gen v' => [DGen (e_key e) v']
-      end
+  | None => if f_fix F then [] else [(e_key e, RKeep (e_val e))]            (* Delete, category fix *)
+  | Some v => [(e_key e, assign_tree F (e_val e) v)]
   end.
 
-Fixpoint place (F : flags) (ins : list (nat * list (Z * Z))) (news : list (Z * Z)) (i : nat) (olds : list entry) : list ditem :=
+Fixpoint place (F : flags) (ins : list (nat * list (Z * val))) (news : list (Z * val)) (i : nat) (olds : list entry) : list ditem :=
   match olds with
   | [] => if f_fix F then inserted_at ins i else []
   | e :: r => (if f_fix F then inserted_at ins i else []) ++ assign_entry F e news ++ place F ins news (S i) r
   end.
 
-Definition dict_result (F : flags) (olds : list entry) (news : list (Z * Z)) : list ditem :=
+Definition dict_result (F : flags) (olds : list entry) (news : list (Z * val)) : list ditem :=
   place F (inserts olds news [] 0) news 0 olds.
